@@ -987,6 +987,9 @@ func emitOnUnjoinedNamespace(name, state string, bound int) *vx.Scenario {
 				if ns == "/a" && state == "connect-pending" {
 					vsched.RecvStmt(gate) // slow middleware: the client's CONNECT stays pending
 				}
+				if ns == "/a" && state == "connect-rejected" {
+					return fmt.Errorf("not for you") // CONNECT_ERROR: the namespace is not joined
+				}
 				s.OnEvent("ev", func(tag string) { v.Do(func() { got[ns] = append(got[ns], tag) }) })
 				s.OnEvent("eva", func(tag string, ack func(string)) { v.Do(func() { got[ns] = append(got[ns], tag) }); ack("ok") })
 				return nil
@@ -1010,12 +1013,17 @@ func emitOnUnjoinedNamespace(name, state string, bound int) *vx.Scenario {
 			vsched.Await(func() bool { return up["/a"] == 1 })
 			vrig.Settle(time.Second)
 			sock["/a"].Disconnect()
-		case "connect-pending":
+		case "connect-pending", "connect-rejected":
 			sock["/a"].Connect()
 		}
 		vrig.Settle(time.Second)
 		vsched.SetExploring(true)
 		a := sock["/a"]
+		if state == "connect-rejected" {
+			// the application tidies up the socket whose connection was refused
+			a.Disconnect()
+			vrig.Settle(time.Second)
+		}
 		a.Volatile().Emit("ev", "volatile")
 		a.Emit("ev", "plain")
 		a.Volatile().Emit("eva", "volatile-ack", func(string) {})
@@ -1072,7 +1080,7 @@ func scenarios(tier string) []*vx.Scenario {
 		sc.Shards = 8
 		s = append(s, sc)
 	}
-	for _, st := range []string{"never-connected", "left", "connect-pending"} {
+	for _, st := range []string{"never-connected", "left", "connect-pending", "connect-rejected"} {
 		s = append(s, emitOnUnjoinedNamespace("emit-on-a-namespace-that-is-not-joined/"+st, st, b))
 	}
 	for _, k := range []int{1, 2, 3, 5} {
